@@ -15,7 +15,7 @@ def wrapIdx (h s : Int) : Int :=
   let n := pow2 h
   if s > n - 1 ∨ s < 0 then
     let s' := wrapLoop n (if n > 0 then ((-s) / n + 2).toNat else 0) s
-    Int.fmod s' n
+    Int.tmod s' n
   else s
 
 def shiftE (e : Ext) (dx dy dv : Int) : Ext :=
